@@ -33,7 +33,7 @@ def pack_msb(vals: np.ndarray, nbits: int) -> np.ndarray:
     return out.astype(np.uint8)
 
 
-def make_pfits(path, raw, scl, offs, wts, *, nbits, freqs, pol_type, tbin=0.001, zero_off=0.0, nstot=None):
+def make_pfits(path, raw, scl, offs, wts, *, nbits, freqs, pol_type, tbin=0.001, zero_off=0.0, nstot=None, chan_bw=None):
     """raw: int array (S, NSBLK, npol, C); scl, offs: (S, npol, C); wts: (S, C); freqs: (C,) MHz in file order."""
     raw = np.asarray(raw)
     S, nsblk, npol, C = raw.shape
@@ -53,7 +53,9 @@ def make_pfits(path, raw, scl, offs, wts, *, nbits, freqs, pol_type, tbin=0.001,
     ]
     tb = fits.BinTableHDU.from_columns(cols, name="SUBINT")
     h = tb.header
-    chan_bw = float(freqs[1] - freqs[0]) if C > 1 else -1.0
+    step = float(freqs[1] - freqs[0]) if C > 1 else -1.0
+    # CHAN_BW is a width: writers differ on whether it carries the sign of the DAT_FREQ step (the channel order is DAT_FREQ's)
+    chan_bw = step if chan_bw is None else (abs(step) if chan_bw == "abs" else -abs(step) if chan_bw == "neg" else step)
     for k, val in [("INT_TYPE", "TIME"), ("INT_UNIT", "SEC"), ("SCALE", "FluxDen"), ("NPOL", npol), ("POL_TYPE", pol_type),
                    ("TBIN", tbin), ("NBIN", 1), ("NBIN_PRD", 0), ("PHS_OFFS", 0.0), ("NBITS", nbits), ("ZERO_OFF", zero_off),
                    ("SIGNINT", 0), ("NSUBOFFS", 0), ("NCHAN", C), ("CHAN_BW", chan_bw), ("DM", 0.0), ("RM", 0.0), ("NCHNOFFS", 0),
